@@ -128,6 +128,10 @@ def parts(tier, rng):
     for p in IB.make_parts(tier, rng, ("C04",), clients=False):
         p.name = "connection-" + p.name
         res.append(p)
+    # .. and when the requests reach the server in one read (burst engines)
+    for p in IB.burst_parts(tier, rng, ("C04",)):
+        p.name = "connection-" + p.name
+        res.append(p)
     # .. with the outbound side busy: an inbound PUBLISH while the send window is full / write back-pressure is on
     # (sink engines, operation 17) still gets its PUBACK
     for p in SC.make_parts(tier, rng, {4}):
